@@ -2,10 +2,10 @@ SPECIFICATION Spec
 CONSTANTS
   Acc = {"a1", "a2"}
   Null = "0"
-  Kinds <- K3
+  Kinds <- K2
   BatchSize = 2
   MaxBlocks = 5
-  MaxXfers = 7
+  MaxXfers = 6
   MaxPerBlock = 3
   Replica <- R2
   DiskBackend <- R1
